@@ -106,7 +106,7 @@ def write_replay(prop, case, res):
 
     d = os.path.join(ROOT, "replays", prop)
     os.makedirs(d, exist_ok=True)
-    path = os.path.join(d, case["id"] + ".py")
+    path = os.path.join(d, case["id"].replace("/", "_").replace(" ", "_") + ".py")
     src = harness_source(case)
     args_repr = res.get("args_repr") or repr(res.get("args"))
     body = f'''#!{PY}
@@ -187,6 +187,14 @@ def match_known(kf, prop, case, info):
 
 def run_property(prop, tier, seed, only=None, jobs=None, verbose=False):
     t0 = time.time()
+    # the reference models must reproduce the maintainers' own expectations (oracle only: the
+    # code under check is not consulted, so a broken tree cannot make this fail)
+    from engine import oracle_selftest
+
+    n_lit, bad_lit = oracle_selftest.run(real=False, quiet=False)
+    if bad_lit:
+        print(f"HARNESS-ERROR property={prop}: the oracle disagrees with {bad_lit} of the repository's test literals")
+        return EXIT_HARNESS, {}
     mod = importlib.import_module(f"props.{prop}")
     ctx = Ctx(tier, seed)
     cases = mod.cases(ctx)
@@ -309,6 +317,7 @@ def run_property(prop, tier, seed, only=None, jobs=None, verbose=False):
             "bounds": bounds,
             "stubs": sorted({s for c in cases for s in c["stubs"]}),
             "known_findings_hit": sorted(known_hits),
+            "oracle_validated_against_test_literals": n_lit,
             "exhaustive": False,
             "engine": "crosshair-tool 0.0.110 + z3-solver 5.1.0, harness regenerated from /repo working tree each run",
         },
@@ -320,6 +329,10 @@ def run_property(prop, tier, seed, only=None, jobs=None, verbose=False):
         os.makedirs(os.path.join(ROOT, "evidence"), exist_ok=True)
         with open(os.path.join(ROOT, "evidence", f"{prop}.json"), "w") as f:
             json.dump(ev, f, indent=1, default=repr)
+    n_open = counts["UNKNOWN"] + counts["KILLED"]
+    if n_open:
+        print(f"NOTE: {n_open} of {len(cases)} cases were not discharged (UNKNOWN/KILLED: bounded exploration only, no violation found); "
+              f"they are listed in the evidence under coverage.unconfirmed_cases")
     print(f"[{prop} {tier}] cases={len(cases)} confirmed={counts['CONFIRMED']} known={ev['coverage']['refuted_known_finding']} "
           f"violations={len(violations)} unknown={counts['UNKNOWN']} killed={counts['KILLED']} harness_errors={len(harness_errors)} "
           f"paths={paths} z3_queries={queries} z3_s={ev['coverage']['solver_time_s']} wall={wall:.1f}s")
